@@ -8,6 +8,8 @@ import "reflect"
 
 var c04Sink int
 
+var c04Base = []int{1, 2, 3}
+
 // C04T is the pointee of pointer parameters.
 type C04T struct{ A int }
 
@@ -75,7 +77,10 @@ func c04v1s(a string, xs ...int) int { c04Sink += len(a) + len(xs); return -777 
 func c04v2(a int, b string, xs ...int) int { c04Sink += a + len(b) + len(xs); return -777 }
 
 //go:noinline
-func c04v2b(a bool, b int, xs ...string) (int, string, int) { c04Sink += b + len(xs); return -777, "orig", -777 }
+func c04v2b(a bool, b int, xs ...string) (int, string, int) {
+	c04Sink += b + len(xs)
+	return -777, "orig", -777
+}
 
 //go:noinline
 func c04v0i(xs ...interface{}) int { c04Sink += len(xs); return -777 }
@@ -91,6 +96,41 @@ func c04v3(a, b, c int, xs ...int) int { c04Sink += a + b + c + len(xs); return 
 
 //go:noinline
 func c04v1i(a interface{}, xs ...interface{}) int { c04Sink += len(xs); return -777 }
+
+//go:noinline
+func c04f2f(a float64, b uint8) int { c04Sink += int(a) + int(b); return -777 }
+
+//go:noinline
+func c04v1f(a uint8, xs ...float64) int { c04Sink += int(a) + len(xs); return -777 }
+
+// um1 is an unexported method, mocked through ExportMethod(...).As(...).
+//
+//go:noinline
+func (r *C04R) um1(a int) int { c04Sink += r.id + a; return -777 }
+
+// umv is an unexported variadic method.
+//
+//go:noinline
+func (r *C04R) umv(a int, xs ...int) int { c04Sink += r.id + a + len(xs); return -777 }
+
+// C04UM1 / C04UMV keep the unexported methods reachable and are what the probe calls.
+//
+//go:noinline
+func C04UM1(r *C04R, a int) int { return r.um1(a) }
+
+//go:noinline
+func C04UMV(r *C04R, a int, xs ...int) int { return r.umv(a, xs...) }
+
+// C04I is mocked through an interface variable.
+type C04I interface {
+	IM0() int
+	IM1(a int) int
+	IM2(a int, b string) (int, string)
+	IMV(a int, xs ...int) int
+	IMN(a int)
+}
+
+var c04IVar C04I
 
 // M0 has no parameters.
 //
@@ -153,6 +193,10 @@ type c04Target struct {
 	fn     interface{} // plain function, nil for methods
 	recv   []interface{}
 	method string
+	asFn   interface{}                                   // unexported method: signature handed to ExportMethod(..).As(..); the probe calls `via`
+	via    interface{}                                   // exported wrapper func(recv, args...) that calls the unexported method
+	ifn    interface{}                                   // interface method: signature handed to Interface(&c04IVar).Method(..).As(..)
+	direct func(recv int, a []interface{}) []interface{} // compiled (non-reflect) call: an empty variadic tail is a nil slice
 }
 
 var (
@@ -174,6 +218,132 @@ var c04Targets = []c04Target{
 	{name: "MN", recv: []interface{}{c04R0, c04R1}, method: "MN"}, {name: "MV", recv: []interface{}{c04R0, c04R1}, method: "MV"},
 	{name: "MV1", recv: []interface{}{c04R0, c04R1}, method: "MV1"}, {name: "MV2", recv: []interface{}{c04R0, c04R1}, method: "MV2"},
 	{name: "V1", recv: []interface{}{c04RV0, c04RV1}, method: "V1"}, {name: "VV", recv: []interface{}{c04RV0, c04RV1}, method: "VV"},
+	{name: "f2f", fn: c04f2f}, {name: "v1f", fn: c04v1f},
+	{name: "U1", recv: []interface{}{c04R0, c04R1}, method: "um1", asFn: func(_ *C04R, a int) int { return -777 }, via: C04UM1},
+	{name: "UV", recv: []interface{}{c04R0, c04R1}, method: "umv", asFn: func(_ *C04R, a int, xs ...int) int { return -777 }, via: C04UMV},
+	{name: "I0", method: "IM0", ifn: func(_ *IContext) int { return -777 }},
+	{name: "I1", method: "IM1", ifn: func(_ *IContext, a int) int { return -777 }},
+	{name: "I2", method: "IM2", ifn: func(_ *IContext, a int, b string) (int, string) { return -777, "orig" }},
+	{name: "IV", method: "IMV", ifn: func(_ *IContext, a int, xs ...int) int { return -777 }},
+	{name: "IN", method: "IMN", ifn: func(_ *IContext, a int) {}},
+}
+
+func c04Ints(a []interface{}) []int {
+	var xs []int // stays nil when there is no element, like the tail of a compiled call without variadic arguments
+	for _, x := range a {
+		xs = append(xs, x.(int))
+	}
+	return xs
+}
+
+func c04Strs(a []interface{}) []string {
+	var xs []string
+	for _, x := range a {
+		xs = append(xs, x.(string))
+	}
+	return xs
+}
+
+func c04One(v int) []interface{} { return []interface{}{v} }
+
+// c04Direct: compiled call sites for the variadic targets.  `f(a)` without variadic arguments passes a nil slice,
+// which reflect.Value.Call and When.Eval never do.
+func init() {
+	rp := func(i int) *C04R { return c04Targets[c04Index("MV")].recv[i].(*C04R) }
+	rv := func(i int) C04RV { return c04Targets[c04Index("VV")].recv[i].(C04RV) }
+	set := func(name string, f func(recv int, a []interface{}) []interface{}) {
+		c04Targets[c04Index(name)].direct = f
+	}
+	set("v0", func(_ int, a []interface{}) []interface{} {
+		if len(a) == 0 {
+			return c04One(c04v0())
+		}
+		return c04One(c04v0(c04Ints(a)...))
+	})
+	set("v0s", func(_ int, a []interface{}) []interface{} {
+		var x int
+		var y string
+		if len(a) == 0 {
+			x, y = c04v0s()
+		} else {
+			x, y = c04v0s(c04Strs(a)...)
+		}
+		return []interface{}{x, y}
+	})
+	set("v1", func(_ int, a []interface{}) []interface{} {
+		if len(a) == 1 {
+			return c04One(c04v1(a[0].(int)))
+		}
+		return c04One(c04v1(a[0].(int), c04Ints(a[1:])...))
+	})
+	set("v1s", func(_ int, a []interface{}) []interface{} {
+		if len(a) == 1 {
+			return c04One(c04v1s(a[0].(string)))
+		}
+		return c04One(c04v1s(a[0].(string), c04Ints(a[1:])...))
+	})
+	set("v2", func(_ int, a []interface{}) []interface{} {
+		if len(a) == 2 {
+			return c04One(c04v2(a[0].(int), a[1].(string)))
+		}
+		return c04One(c04v2(a[0].(int), a[1].(string), c04Ints(a[2:])...))
+	})
+	set("v3", func(_ int, a []interface{}) []interface{} {
+		if len(a) == 3 {
+			return c04One(c04v3(a[0].(int), a[1].(int), a[2].(int)))
+		}
+		return c04One(c04v3(a[0].(int), a[1].(int), a[2].(int), c04Ints(a[3:])...))
+	})
+	set("v1n", func(_ int, a []interface{}) []interface{} {
+		if len(a) == 1 {
+			c04v1n(a[0].(int))
+		} else {
+			c04v1n(a[0].(int), c04Ints(a[1:])...)
+		}
+		return nil
+	})
+	set("MV", func(r int, a []interface{}) []interface{} {
+		if len(a) == 0 {
+			return c04One(rp(r).MV())
+		}
+		return c04One(rp(r).MV(c04Ints(a)...))
+	})
+	set("MV1", func(r int, a []interface{}) []interface{} {
+		if len(a) == 1 {
+			return c04One(rp(r).MV1(a[0].(int)))
+		}
+		return c04One(rp(r).MV1(a[0].(int), c04Ints(a[1:])...))
+	})
+	set("VV", func(r int, a []interface{}) []interface{} {
+		if len(a) == 1 {
+			return c04One(rv(r).VV(a[0].(int)))
+		}
+		return c04One(rv(r).VV(a[0].(int), c04Ints(a[1:])...))
+	})
+	set("IV", func(_ int, a []interface{}) []interface{} {
+		if len(a) == 1 {
+			return c04One(c04IVar.IMV(a[0].(int)))
+		}
+		return c04One(c04IVar.IMV(a[0].(int), c04Ints(a[1:])...))
+	})
+	set("I0", func(_ int, a []interface{}) []interface{} { return c04One(c04IVar.IM0()) })
+	set("I1", func(_ int, a []interface{}) []interface{} { return c04One(c04IVar.IM1(a[0].(int))) })
+	set("I2", func(_ int, a []interface{}) []interface{} {
+		x, y := c04IVar.IM2(a[0].(int), a[1].(string))
+		return []interface{}{x, y}
+	})
+	set("IN", func(_ int, a []interface{}) []interface{} { c04IVar.IMN(a[0].(int)); return nil })
+	set("f1", func(_ int, a []interface{}) []interface{} { return c04One(c04f1(a[0].(int))) })
+	set("M1", func(r int, a []interface{}) []interface{} { return c04One(rp(r).M1(a[0].(int))) })
+}
+
+func c04Index(name string) int {
+	for i := range c04Targets {
+		if c04Targets[i].name == name {
+			return i
+		}
+	}
+	panic("no target " + name)
 }
 
 // c04Domain maps (parameter type, index) to a Go value.  Values of one type are pairwise different under goom's
@@ -220,7 +390,13 @@ func c04Domain(t reflect.Type, idx string) (v interface{}, ok bool) {
 	case reflect.Struct:
 		return []C04S{{}, {A: 1}, {A: 1, B: "b"}, {B: "b"}}[i], true
 	case reflect.Slice:
-		return [][]int{{}, {1}, {1, 2}, {2}}[i], true
+		// windows of ONE backing array: 0 = base[:0], 1 = base[:1], 2 = base[:2] share the data pointer and differ
+		// only in length; 3 = base[1:2].  Equal as Go values only when index-equal.
+		return [][]int{c04Base[:0], c04Base[:1], c04Base[:2], c04Base[1:2]}[i], true
+	case reflect.Float64:
+		return []float64{0, 1, 1.5, -2}[i], true
+	case reflect.Uint8:
+		return []uint8{0, 1, 7, 255}[i], true
 	}
 	return nil, false
 }
